@@ -7,9 +7,11 @@ import (
 	"log"
 	"os"
 	"sync"
+	"sync/atomic"
 	"testing"
 	"time"
 
+	"github.com/brewlin/net-protocol/pkg/buffer"
 	"github.com/brewlin/net-protocol/pkg/sleep"
 	"github.com/brewlin/net-protocol/pkg/waiter"
 	tcpip "github.com/brewlin/net-protocol/protocol"
@@ -262,6 +264,11 @@ func waiting(k int) {
 	lateMs := []int{0, 1, 400, 900}[r.Intn(4)]      // well inside the 1 s retry interval
 	useTCP := r.Chance(1, 3)
 	nh := tcpip.Address([]byte{10, 0, 0, byte(30 + r.Intn(100))})
+	if r.Chance(1, 6) {
+		// host parts that look special without being so: everything is on-link behind the default
+		// route and no subnet is configured, so 10.0.2.255 or 10.0.3.0 are ordinary neighbours
+		nh = tcpip.Address([]byte{10, 0, byte(1 + r.Intn(3)), []byte{255, 255, 0, 254, 1}[r.Intn(5)]})
+	}
 	var nhm [6]byte
 	copy(nhm[:], r.Bytes(6))
 	nhm[0] &^= 1
@@ -280,6 +287,16 @@ func waiting(k int) {
 	we, ch := waiter.NewChannelEntry(nil)
 	wq.EventRegister(&we, waiter.EventOut|waiter.EventIn|waiter.EventErr|waiter.EventHUp)
 	payload := []byte(fmt.Sprintf("neigh-%d", k))
+	// the device refuses the first resolution request (transmit queue full): that attempt is
+	// spent without anything on the wire, the remaining ones follow on schedule
+	var refused int32
+	if r.Chance(1, 5) {
+		rep["first_request_refused_by_the_link"] = true
+		x.h.L.Refuse = func(proto tcpip.NetworkProtocolNumber, _ buffer.View, _ buffer.VectorisedView) bool {
+			return proto == arp.ProtocolNumber && atomic.CompareAndSwapInt32(&refused, 0, 1)
+		}
+		run.Count("waits_with_first_request_refused", 1)
+	}
 	start := time.Now()
 	x.take()
 	var resolveCh <-chan struct{}
@@ -393,7 +410,8 @@ func waiting(k int) {
 	if dataBefore {
 		viol("wait/data-before-resolution", "a data frame for the next hop was put on the wire before its link address was known")
 	}
-	willAnswer := answerAfter < 3
+	budget := 3 - int(atomic.LoadInt32(&refused)) // attempts that reach the wire
+	willAnswer := answerAfter < budget
 	// request schedule: one per second, at most 3, all before the answer
 	for i := 1; i < len(reqs); i++ {
 		gap := reqs[i].t - reqs[i-1].t
@@ -401,12 +419,12 @@ func waiting(k int) {
 			viol("wait/request-spacing", fmt.Sprintf("resolution requests %d and %d are %v apart (expected 1 s)", i, i+1, gap))
 		}
 	}
-	wantReqs := 3
+	wantReqs := budget
 	if willAnswer {
 		wantReqs = answerAfter + 1
 	}
 	if len(reqs) != wantReqs {
-		viol("wait/request-count", fmt.Sprintf("%d resolution requests were sent; expected %d (answer to request #%d after %d ms)", len(reqs), wantReqs, answerAfter+1, lateMs))
+		viol("wait/request-count", fmt.Sprintf("%d resolution requests were sent; expected %d (answer to request #%d after %d ms; %d attempts refused by the link)", len(reqs), wantReqs, answerAfter+1, lateMs, 3-budget))
 	}
 	if willAnswer {
 		// the waiting operation proceeds using the learned address
